@@ -168,7 +168,7 @@ def _c15(E, tier, seed, res):
     res["evaluations"] += evals
     res["distinct"] += inter
     # Miri: UB + data-race interpreter, one schedule per seed
-    nseeds = 8 if tier == "quick" else 64
+    nseeds = 6 if tier == "quick" else 64
     lo = (seed % 1000) * nseeds
     t0 = time.time()
     done = 0
@@ -176,7 +176,7 @@ def _c15(E, tier, seed, res):
         b = min(a + 16, lo + nseeds)
         rc, out, err = _cargo(E, cdir, ["miri", "run", "--offline"], "target/miri", toolchain="+nightly",
                               extra_env={"MIRIFLAGS": "-Zmiri-many-seeds=%d..%d" % (a, b)}, clean_pkg=False, timeout=3000,
-                              prog_args=[1, 4, 6, seed])
+                              prog_args=[1, 3, 4, seed] if tier == "quick" else [1, 4, 6, seed])
         if rc is None:
             res["inconclusive"].append("miri leg: watchdog fired")
             break
@@ -197,7 +197,7 @@ def _c15(E, tier, seed, res):
                 break
     cov["miri_seeds_run"] = done
     cov["miri_wall_s"] = round(time.time() - t0, 1)
-    res["evaluations"] += done * 48
+    res["evaluations"] += done * 40
     # ThreadSanitizer (thorough only)
     if tier == "thorough":
         rc, out, err = _cargo(E, cdir, ["build", "--offline", "--release", "-Zbuild-std", "--target", "x86_64-unknown-linux-gnu"],
